@@ -551,8 +551,8 @@ func TestC10(t *testing.T) {
 				if debug && berr != nil {
 					tr.p("# %s", strings.ReplaceAll(berr.Error(), "\n", " "))
 				}
-				tw, _ := a.MarketKeeper.GetTwa(c, f.assetD)
-				tr.p("op bid %d %d %s %s %d %s", aid, o.who, amt, b2s(denom != f.denomD), tw.Twa, class)
+				tw, twFound := a.MarketKeeper.GetTwa(c, f.assetD)
+				tr.p("op bid %d %d %s %s %d %s %s", aid, o.who, amt, b2s(denom != f.denomD), tw.Twa, b2s(twFound && tw.IsPriceActive), class)
 				observe()
 			}
 		}
